@@ -41,6 +41,9 @@ def _cycle(face):
     return tuple(f[m:] + f[:m])
 
 
+WITH_FF = [False]  # set per history: the form factor joins the observables in histories that start with "observe"
+
+
 def observables(s, H):
     """(concrete dict, symbolic dict) of public observables in order-insensitive canonical form."""
     kind = type(s).__name__
@@ -112,6 +115,21 @@ def observables(s, H):
                   [(vs[0][k] + vs[1][k] + vs[2][k]) / 3 + (vm[k] - vs[0][k]) / 50 for k in range(3)]]
         res = s.is_inside(H.arr(probes))
         conc["is_inside"] = [bool(x) for x in res]
+    if WITH_FF[0] and kind in ("Polygon", "ConvexPolygon"):  # (polyhedra: too many uninterpreted values per path; C12 has a resize-then-evaluate obligation)
+        # form factor at one generic wave vector, cos / sin uninterpreted (congruence): equal geometry gives equal terms
+        q = H.arr([[H.num(F(1, 2)), H.num(F(-1, 3)), H.num(F(1, 4))]])
+        if H.symbolic:
+            from symx import core as sc
+
+            sc.CTX.trig_opaque = True
+            try:
+                ff = s.compute_form_factor_amplitude(q)[0]
+            finally:
+                sc.CTX.trig_opaque = False
+            sym["form_factor.re"], sym["form_factor.im"] = ff.re, ff.im
+        else:
+            ff = complex(s.compute_form_factor_amplitude(q)[0])
+            sym["form_factor.re"], sym["form_factor.im"] = ff.real, ff.imag
     return conc, sym
 
 
@@ -278,6 +296,7 @@ def make_body(kind, variant, ops):
     def body(H, V):
         from symx import core as sc
 
+        WITH_FF[0] = bool(ops) and ops[0].label == "observe" and len(ops) > 1
         s = _mk(kind, H, variant)
         for i, op in enumerate(ops):
             before = _raw_state(s)
